@@ -87,4 +87,16 @@ uint32_t mask_of(const int *idx, int n);
 int list_of(uint32_t mask, int n, int *out);   /* indexes set in mask, ascending */
 void mask_str(uint32_t mask, int n, char *buf, size_t len); /* "[0,3,5]" */
 
+/* ---- per-configuration context: instance + a set of encoded stripes ---- */
+#define MAXSTR 16
+typedef struct {
+    cfg_t c; int desc; code_t cd; char ck[96];
+    int nstr; stripe_t st[MAXSTR]; uint8_t *data[MAXSTR]; int kind[MAXSTR];
+} ctx_t;
+extern int LEC_MODEL_LEGACY;
+extern const char *LEC_PROP;     /* property id used for violations raised in set-up cases */
+int  ctx_open(ctx_t *x, const cfg_t *c, const uint64_t *lens, const int *kinds, int nlen);
+void ctx_close(ctx_t *x);
+int  std_lengths(const cfg_t *c, uint64_t *lens, int *kinds, int max, int few);
+
 #endif
